@@ -76,15 +76,27 @@ ns_shift, ns_mask = lit(m.group(1)), lit(m.group(2))
 m = re.search(r"match namespace \{(.*)\}", body, re.S)
 if not m:
     die("match namespace")
-arms_src = m.group(1)
-ns_arms = []
-for pat, rhs in re.findall(r"(0b[01]+|0x[0-9a-fA-F]+|\d+|_)\s*=>\s*(Self::parse_gencp_status|Self::parse_usb_status|Ok\(Self \{|Err\()", arms_src):
-    target = {"Self::parse_gencp_status": "genCp", "Self::parse_usb_status": "usb", "Ok(Self {": "deviceSpecific", "Err(": "error"}[rhs]
-    if target == "deviceSpecific" and "StatusKind::DeviceSpecific" not in arms_src:
-        die("device specific arm")
-    ns_arms.append((pat, target))
-if [a for a in ns_arms if a[0] == "_"] != [("_", "error")]:
-    die("default namespace arm is not the error arm")
+# strict: the whole block must be a sequence of arms of exactly these four shapes
+arms_src = " ".join(m.group(1).split())
+LIT = r"(0b[01_]+|0x[0-9a-fA-F_]+|\d[\d_]*)"
+shapes = [
+    (re.compile(LIT + r" => Self::parse_gencp_status\(code\), ?"), "genCp"),
+    (re.compile(LIT + r" => Self::parse_usb_status\(code\), ?"), "usb"),
+    (re.compile(LIT + r" => Ok\(Self \{ code, kind: StatusKind::DeviceSpecific, \}\), ?"), "deviceSpecific"),
+    (re.compile(r"(_) => Err\(Error::InvalidPacket\( ?\"[^\"]*\"\.into\(\),? ?\)\), ?"), "error"),
+]
+ns_arms, pos = [], 0
+while pos < len(arms_src):
+    for rx, target in shapes:
+        mm = rx.match(arms_src, pos)
+        if mm:
+            ns_arms.append((mm.group(1), target))
+            pos = mm.end()
+            break
+    else:
+        die("unsupported arm in `match namespace` at: " + arms_src[pos:pos + 60])
+if not ns_arms or ns_arms[-1] != ("_", "error") or [a for a in ns_arms if a[0] == "_"] != [("_", "error")]:
+    die("default namespace arm is not the (last) error arm")
 ns_arms = [(lit(p), t) for p, t in ns_arms if p != "_"]
 
 # is_fatal
@@ -95,27 +107,40 @@ if not m:
 fatal_shift = lit(m.group(1))
 
 
-def code_table(fn, what):
-    b = fn_body(ack, r"fn %s\(code: u16\) -> Result<Self> \{" % fn, what)
-    m = re.search(r"let status = match code \{(.*?)\n\s*_ => \{", b, re.S)
-    if not m:
-        die(what + " match")
-    rows = re.findall(r"(0x[0-9a-fA-F_]+|\d+)\s*=>\s*(\w+),", m.group(1))
+def strict_rows(block, row_re, what):
+    """every non-blank line of a match block must be exactly one literal arm (no or-patterns,
+    guards, ranges, bindings, multi-line arms): anything else is refused, never dropped"""
+    rows = []
+    for line in block.splitlines():
+        if not line.strip():
+            continue
+        mm = re.fullmatch(row_re, line)
+        if not mm:
+            die("%s: unsupported arm `%s`" % (what, line.strip()))
+        rows.append((lit(mm.group(1)), mm.group(2)))
     if not rows:
         die(what + " arms")
-    return [(lit(c), v) for c, v in rows]
+    if len(set(c for c, _ in rows)) != len(rows):
+        die(what + ": duplicate code")
+    return rows
+
+
+def code_table(fn, what):
+    b = fn_body(ack, r"fn %s\(code: u16\) -> Result<Self> \{" % fn, what)
+    m = re.search(r"let status = match code \{\n(.*?)\n\s*_ => \{\s*return Err\(Error::InvalidPacket\(", b, re.S)
+    if not m:
+        die(what + " match (with an InvalidPacket default arm)")
+    return strict_rows(m.group(1), r"\s*(0x[0-9a-fA-F_]+|\d[\d_]*)\s*=>\s*(\w+),\s*", what)
 
 
 gencp = code_table("parse_gencp_status", "parse_gencp_status")
 usb = code_table("parse_usb_status", "parse_usb_status")
 
 body = fn_body(ack, r"impl ScdKind \{\s*fn parse\(cursor: &mut Cursor<&\[u8\]>\) -> Result<Self> \{", "ScdKind::parse")
-m = re.search(r"match id \{(.*?)\n\s*_ =>", body, re.S)
+m = re.search(r"match id \{\n(.*?)\n\s*_ => Err\(Error::InvalidPacket\(", body, re.S)
 if not m:
-    die("ScdKind::parse match")
-kinds = [(lit(c), v) for c, v in re.findall(r"(0x[0-9a-fA-F_]+|\d+)\s*=>\s*Ok\(ScdKind::(\w+)\),", m.group(1))]
-if not kinds:
-    die("ScdKind arms")
+    die("ScdKind::parse match (with an InvalidPacket default arm)")
+kinds = strict_rows(m.group(1), r"\s*(0x[0-9a-fA-F_]+|\d[\d_]*)\s*=>\s*Ok\(ScdKind::(\w+)\),\s*", "ScdKind::parse")
 
 h = hashlib.sha1((ack + evt).encode()).hexdigest()[:16]
 L = ["/- GENERATED by tools/gen_ack_tables.py from device/src/u3v/protocol/{ack,event}.rs — do not edit.",
